@@ -1100,6 +1100,8 @@ class Interp:
             return VBound(obj, name)
         if isinstance(obj, VBuiltin) and obj.name == 'identity_dedup_dict':
             return VBound(obj, name)
+        if isinstance(obj, VReal) and name in ('all', 'any'):
+            return VBound(obj, name)          # numpy scalars / per-column vectors: x.all(), x.any()
         if isinstance(obj, VBuiltin):
             return VBuiltin(obj.name + '.' + name)
         if isinstance(obj, VClass):
@@ -1784,6 +1786,14 @@ class Interp:
 
     # ------------------------------------------------------------ methods of containers
     def call_method(self, recv, name, args, kwargs, fr):
+        if isinstance(recv, VReal) and name in ('all', 'any') and not args and not kwargs:
+            nz = recv.t != 0
+            if not isinstance(recv, VVec):
+                return VBool(nz)               # a numpy scalar: truth of the number
+            # a per-column vector observed at one arbitrary column: all() implies this column, this column implies any()
+            b = z3.Bool(sym.fresh_name('columns_' + name))
+            self.st.assume(z3.Implies(b, nz) if name == 'all' else z3.Implies(nz, b))
+            return VBool(b)
         if isinstance(recv, VBuiltin) and recv.name == 'identity_dedup_dict' and name == 'values' and not args:
             return recv.values_seq
         if isinstance(recv, VFrame) or getattr(recv, 'frame_like', False):
